@@ -102,6 +102,7 @@ MapWalk(st, rt, tblVA, pg, lvl, leaf, fls) ==
        IF lvl = 4
        THEN [st EXCEPT !.m[loc.f][loc.j] = [f |-> leaf, fl |-> IF Bug = "StaleBitsOnRemap" THEN e.fl \cup fls ELSE fls],
                        !.flush = IF Bug = "NoFlushOnMap" THEN @ ELSE Append(@, pg)]
+       ELSE IF 7 \in e.fl THEN [st EXCEPT !.err = "EHUGE"]                  \* huge-page bit in an UPPER-level entry
        ELSE IF Present(e) THEN MapWalk(st, rt, ShiftVA(ea), pg, lvl + 1, leaf, fls)
        ELSE IF st.fail = 1 \/ st.fr = {} THEN [st EXCEPT !.err = "ENOMEM", !.afail = TRUE, !.fail = 0]
        ELSE LET nf  == CHOOSE x \in st.fr : \A y \in st.fr : x <= y
@@ -120,9 +121,11 @@ UnmapWalk(st, rt, tblVA, pg, lvl) ==
       loc == Deref(st.m, rt, ea)
   IN IF ~loc.ok THEN [st EXCEPT !.err = "FAULT"]
      ELSE LET e == st.m[loc.f][loc.j] IN
-       IF lvl = 4 THEN [st EXCEPT !.m[loc.f][loc.j].fl = e.fl \ {0},
+       IF Bug = "UnmapHugeGuardHoisted" /\ Present(e) /\ 7 \in e.fl THEN [st EXCEPT !.err = "EHUGE"]
+       ELSE IF lvl = 4 THEN [st EXCEPT !.m[loc.f][loc.j].fl = e.fl \ {0},   \* the leaf is handled BEFORE the huge-page guard (bit 7 = PAT there)
                                   !.flush = IF Bug = "NoFlushOnUnmap" THEN @ ELSE Append(@, pg)]
        ELSE IF ~Present(e) THEN [st EXCEPT !.err = "EINVAL"]
+       ELSE IF 7 \in e.fl THEN [st EXCEPT !.err = "EHUGE"]
        ELSE UnmapWalk(st, rt, ShiftVA(ea), pg, lvl + 1)
 
 \* pteForAddress + Translate: <<"ok", pa>> | <<"err">> | <<"FAULT">>
@@ -142,7 +145,7 @@ WithPdt(m, pdt) == IF pdt = active THEN m ELSE [m EXCEPT ![AF][L].f = roots[pdt]
 Restore(m, pdt) == IF pdt = active \/ Bug = "NoRestoreRecursive" THEN m ELSE [m EXCEPT ![AF][L].f = AF]
 
 --------------------------------------------------------------------------
-Res(st) == CASE st.err = "" -> "ok" [] st.err = "ENOMEM" -> "enomem" [] st.err = "FAULT" -> "panic" [] OTHER -> "err:EINVAL"
+Res(st) == CASE st.err = "" -> "ok" [] st.err = "ENOMEM" -> "enomem" [] st.err = "FAULT" -> "panic" [] st.err = "EHUGE" -> "err:huge pages are not supported" [] OTHER -> "err:EINVAL"
 NewTab(m2, new) == LET q == SeqOfSet(new) IN [t \in 1..Len(q) |-> SeqOfSet({j \in Idx : m2[q[t]][j] # ZeroE})]
 Digest(m, fs) == [f \in fs |-> m[f]]
 \* the fields every table-changing event carries
